@@ -249,13 +249,14 @@ def decode_binary(buf):
                 if icol != ncol + 1 or irow != 1:
                     raise CodecError(f"{name!r}: closing record has icol={icol} irow={irow}"
                                      f" (ncol={ncol})")
-                if len(data) != dt.itemsize:
+                if len(data) not in (4, 8) or len(data) < ksz:
                     raise CodecError(f"{name!r}: closing record carries {len(data)} bytes, "
-                                     f"expected one {dt.itemsize}-byte real")
-                if nwords not in (1, wper):
+                                     f"expected one real")
+                if nwords not in (1, 2):
                     raise CodecError(f"{name!r}: closing record nwords={nwords}")
-                closing = {"nwords": int(nwords),
-                           "value": float(np.frombuffer(data, dt)[0])}
+                closing = {"nwords": int(nwords), "nbytes": len(data),
+                           "value": float(np.frombuffer(
+                               data, endian + ("f4" if len(data) == 4 else "f8"))[0])}
                 break
             if icol <= last or icol < 1:
                 raise CodecError(f"{name!r}: column numbers not increasing ({last} -> {icol})")
@@ -393,8 +394,10 @@ def encode_binary(f):
                 head = struct.pack(e + "3" + kch, icol, 0, nwords)
             rec(head + body)
             m.col_offsets.append((icol, cpos, len(out)))
+        cb = m.closing.get("nbytes") or dt.itemsize
         rec(struct.pack(e + "3" + kch, m.ncol + 1, 1, m.closing["nwords"])
-            + np.array([m.closing["value"]], dtype=float).astype(dt).tobytes())
+            + np.array([m.closing["value"]], dtype=float).astype(
+                e + ("f4" if cb == 4 else "f8")).tobytes())
         m.stop = len(out)
     return bytes(out)
 
@@ -700,20 +703,23 @@ def encode(f):
     return encode_binary(f) if f.kind == "binary" else encode_ascii(f)
 
 
-SAMPLE_DIR = "pyyeti/tests/nastran_op4_data"
-SAMPLE_MAX_BYTES = 4_000_000
+SAMPLE_ROOT = "pyyeti/tests"
+SAMPLE_MAX_BYTES = 64_000_000
 
 
-def sample_files(repo):
-    d = os.path.join(repo, SAMPLE_DIR)
+def sample_files(repo, extra=True):
+    """Every *.op4 / *.op4.other under pyyeti/tests (extra=False: nastran_op4_data only)."""
     out = []
-    for fn in sorted(os.listdir(d)):
-        if fn.endswith(".op4") or fn.endswith(".op4.other"):
-            out.append(os.path.join(d, fn))
+    for d, _, files in sorted(os.walk(os.path.join(repo, SAMPLE_ROOT))):
+        if not extra and os.path.basename(d) != "nastran_op4_data":
+            continue
+        for fn in sorted(files):
+            if fn.endswith(".op4") or fn.endswith(".op4.other"):
+                out.append(os.path.join(d, fn))
     return out
 
 
-def selfcheck_samples(repo):
+def selfcheck_samples(repo, extra=True):
     """decode + byte-exact re-encode of every shipped sample file.
 
     Returns (n_ok, failures[list of (file, reason)], stats).  Matrices are kept in the
@@ -723,7 +729,7 @@ def selfcheck_samples(repo):
     ok, bad = 0, []
     stats = {"binary": 0, "ascii": 0, "bit64": 0, "big_endian": 0, "matrices": 0,
              "layouts": {}, "types": {}, "formats": {}}
-    for path in sample_files(repo):
+    for path in sample_files(repo, extra):
         if os.path.getsize(path) > SAMPLE_MAX_BYTES:
             continue
         buf = open(path, "rb").read()
@@ -731,12 +737,12 @@ def selfcheck_samples(repo):
             f = decode(buf)
             again = encode(f)
         except CodecError as e:
-            bad.append((os.path.basename(path), "decode/encode: " + str(e)))
+            bad.append((os.path.relpath(path, repo), "decode/encode: " + str(e)))
             continue
         if again != buf:
             i = next((i for i, (a, b) in enumerate(zip(again, buf)) if a != b),
                      min(len(again), len(buf)))
-            bad.append((os.path.basename(path),
+            bad.append((os.path.relpath(path, repo),
                         f"re-encoding differs at byte {i}: {buf[i:i + 40]!r} vs "
                         f"{again[i:i + 40]!r}"))
             continue
